@@ -326,8 +326,11 @@ func TestVerifC43(t *testing.T) {
 	// the fixed corpus against both DSN services
 	e.corpus()
 
+	e.corpusForms()
+
 	e.db = true
 	e.corpus()
+	e.corpusForms()
 
 	// random histories: the file service, then (fewer: each DSN operation is several SQL statements) the
 	// database service with its own stream
@@ -338,6 +341,7 @@ func TestVerifC43(t *testing.T) {
 	}{{false, 43, verifh.N(100, 1500)}, {true, 4343, verifh.N(35, 500)}} {
 		e.db = mode.db
 		r := verifh.Rand(mode.salt)
+		rf := verifh.Rand(mode.salt + 7000) // the HTTP forms of row requests draw from their own stream
 
 		for h := 0; h < mode.histories; h++ {
 			e.reset()
@@ -357,6 +361,11 @@ func TestVerifC43(t *testing.T) {
 
 				for q, nq := 0, 1+r.Intn(3); q < nq; q++ {
 					e.randomQuery(r, true)
+				}
+
+				// row requests in both row formats, with and without ?user= (zz_verif_c43g_test.go)
+				if rf.Intn(verifh.N(12, 3)) == 0 {
+					e.randomRowForm(rf)
 				}
 			}
 		}
